@@ -20,10 +20,26 @@ CHECKS = {
                 text='All 32 pm1 start trees, copies steered to both sides of every position threshold, pm2 table re-reads at every stage including mid-copy; required shapes asserted reached.',
                 note='No real -pm1- encoder exists; the model is a reading of the format. Copies only from produced data.',
                 design='4/C04'),
+    'C05': dict(level='exploration', technique='runtime differential monitor: header encoder + field normaliser model vs fields returned by lha_reader_next_file, sentinel member for header length, two time zones',
+                text='Generated headers of all levels (field extremes, every subset of the ten extended-header types up to a bound in every order, level-0 areas, symlinks, quirks) are parsed by the real reader and every returned field, the first data bytes and the following member are compared with the model.',
+                note='Trusts vlib/lhamodel/header.py as the reading of the format (validated against lhasa and, through lhasa, the recorded corpus). NUL-free names only.',
+                design='4/C05'),
+    'C07': dict(level='exploration', technique='runtime monitor of the verdict iff: bytes actually delivered + independent bitwise CRC vs verdicts of check/extract/CLI, over corrupted/truncated variants; exhaustive burst enumeration on a stored member',
+                text='Three independent readers per archive variant (read, check, extract) plus lha t / lha x: the verdict must equal (length and CRC-16 of the delivered bytes match the recorded ones). All bursts of span <= 16 bits at every bit offset of a stored member are enumerated in the thorough tier.',
+                note='Bursts are measured in the bit order CRC-16/ARC consumes (LSB first per byte). MacBinary members excluded.',
+                design='4/C07'),
     'C09': dict(level='exploration', technique='sanitizers (ASan + bounds-UBSan) on hostile compressed data, split-allocation driver of the per-type callbacks, invariant hooks on trees/table indices',
                 text='Each decoder is fed constant fills, random bytes, corrupted valid streams (flips inside table regions), structure-aware hostile tables and exhaustive small header grids, in direct-callback mode (state and output in separate exact-size blocks) and through lha_decoder_read with exact-size buffers; hooks catch far/intra-object indexing ASan cannot.',
                 note='A clean run is not memory safety; heap-layout dependent and intra-object errors outside array-typed indexing/hooks can escape.',
                 design='4/C09'),
+    'C11': dict(level='exploration', technique='exhaustive in-process enumeration of hostile name/path strings through every header channel, predicate monitor on returned path/filename, ASan build',
+                text='All strings over {., /, \\, 0xFF, NUL, letter} up to length 5 (quick) / 7 (thorough) are fed through 13+ header channels and 5 OS types (tens of millions of parses); the 10-line invariant is evaluated on what lha_reader_next_file returns.',
+                note='Exhaustive only up to the length bound and over that alphabet; longer strings sampled.',
+                design='4/C11'),
+    'C12': dict(level='exploration', technique='exhaustive single-byte substitution / truncation / length-field perturbation of generated headers, independent C statement of the integrity rules as oracle',
+                text='For a base set of well-formed headers every one of the 255 substitutions at every header byte, every truncation and length-field perturbation is parsed; whenever the independent rules condemn the mutant the library must return no header and iteration must end.',
+                note='One-directional and only for the listed rules; base set is a sample of header shapes.',
+                design='4/C12'),
     'C14': dict(level='exploration', technique='runtime monitor of the decoder API contract: split-invariance against a single maximal read, independent bitwise CRC, progress-callback sequence checker; exhaustive read compositions for short outputs',
                 text='For every (method, stream, declared length) the bytes, reported length/CRC and callback sequence under many read schedules (all 2^(n-1) compositions for short outputs) are compared with one maximal read and an independent CRC.',
                 note='Input callback delivers full requests while data remains. Schedules sampled for long outputs.',
